@@ -198,7 +198,7 @@ PROPS = {
               "model:footer-choice", "model:open-result", "model:write-barrier", "model:files-discipline", "driver-error", "harness-error"} | STRUCT | READS, corr_held=False,
         spec={"spec:limits", "spec:gets", "spec:iter", "spec:open-failed", "spec:open-panic", "spec:not-a-prefix",
               "spec:lost-synced-round", "spec:batchbuf-entries", "spec:batchbuf-sort", "spec:batchbuf-find",
-              "spec:batchbuf-get", "spec:batchbuf-rejected-changed"}, spec_held=False,
+              "spec:batchbuf-get", "spec:batchbuf-rejected-changed", "spec:batchbuf-stale-handle"}, spec_held=False,
         rule="batch buffer at function level: call sequences of 4-17 calls (Set/Del/Merge, Alloc, copy into a handle incl. "
              "short and long copies, AllocSet/AllocDel/AllocMerge of staged handles in any order, split anywhere, nil value) "
              "on batches of capacity 0-200 so that plain operations outgrow the buffer, two thirds ending in sort.Sort and six "
